@@ -156,9 +156,8 @@ func (a *T0x0200AdditionDetails) parse(body []byte) error {
 		}
 		return true
 	}
-	if a.Additions == nil {
-		a.Additions = make(map[consts.JT808LocationAdditionType]Addition)
-	}
+	// 每次解析都使用新的map 复用对象时不保留上一次的附加信息
+	a.Additions = make(map[consts.JT808LocationAdditionType]Addition)
 	for index < len(body) {
 		if index+2 > len(body) {
 			return protocol.ErrBodyLengthInconsistency
